@@ -36,54 +36,29 @@ structure Utf8Error where
   errorLen : Option Nat
   deriving DecidableEq, Repr
 
-def isCont (b : UInt8) : Bool := 0x80 ≤ b && b ≤ 0xBF
-
-/-- Second byte of a 3-byte sequence (`run_utf8_validation`, the `(first, next)` match). -/
-def second3 (b c : UInt8) : Bool :=
-  (b == 0xE0 && 0xA0 ≤ c && c ≤ 0xBF) || (0xE1 ≤ b && b ≤ 0xEC && isCont c) ||
-  (b == 0xED && 0x80 ≤ c && c ≤ 0x9F) || (0xEE ≤ b && b ≤ 0xEF && isCont c)
-
-/-- Second byte of a 4-byte sequence. -/
-def second4 (b c : UInt8) : Bool :=
-  (b == 0xF0 && 0x90 ≤ c && c ≤ 0xBF) || (0xF1 ≤ b && b ≤ 0xF3 && isCont c) ||
-  (b == 0xF4 && 0x80 ≤ c && c ≤ 0x8F)
-
-/-- `run_utf8_validation` with `i` bytes already accepted: `none` = valid. -/
-def utf8Go (i : Nat) : Bytes → Option Utf8Error
-  | [] => none
+/-- `run_utf8_validation` as a byte-at-a-time automaton (structural recursion, kernel-reducible).
+    `i`: offset of the character being decoded (`valid_up_to` on error); `need`: continuation bytes still
+    expected; `seen`: bytes of this character already consumed (`error_len` on a bad byte); `[lo, hi]`:
+    admissible range of the next byte (the `(first, next)` table of the std implementation). -/
+def utf8Go (i need seen : Nat) (lo hi : UInt8) : Bytes → Option Utf8Error
+  | [] => if need = 0 then none else some ⟨i, none⟩
   | b :: rest =>
-    if b < 0x80 then utf8Go (i + 1) rest
-    else if 0xC2 ≤ b && b ≤ 0xDF then
-      match rest with
-      | [] => some ⟨i, none⟩
-      | c1 :: r1 => if isCont c1 then utf8Go (i + 2) r1 else some ⟨i, some 1⟩
-    else if 0xE0 ≤ b && b ≤ 0xEF then
-      match rest with
-      | [] => some ⟨i, none⟩
-      | c1 :: r1 =>
-        if second3 b c1 then
-          match r1 with
-          | [] => some ⟨i, none⟩
-          | c2 :: r2 => if isCont c2 then utf8Go (i + 3) r2 else some ⟨i, some 2⟩
-        else some ⟨i, some 1⟩
-    else if 0xF0 ≤ b && b ≤ 0xF4 then
-      match rest with
-      | [] => some ⟨i, none⟩
-      | c1 :: r1 =>
-        if second4 b c1 then
-          match r1 with
-          | [] => some ⟨i, none⟩
-          | c2 :: r2 =>
-            if isCont c2 then
-              match r2 with
-              | [] => some ⟨i, none⟩
-              | c3 :: r3 => if isCont c3 then utf8Go (i + 4) r3 else some ⟨i, some 3⟩
-            else some ⟨i, some 2⟩
-        else some ⟨i, some 1⟩
-    else some ⟨i, some 1⟩
-termination_by l => l.length
+    if need = 0 then
+      if b < 0x80 then utf8Go (i + 1) 0 0 0 0 rest
+      else if 0xC2 ≤ b && b ≤ 0xDF then utf8Go i 1 1 0x80 0xBF rest
+      else if b == 0xE0 then utf8Go i 2 1 0xA0 0xBF rest
+      else if (0xE1 ≤ b && b ≤ 0xEC) || b == 0xEE || b == 0xEF then utf8Go i 2 1 0x80 0xBF rest
+      else if b == 0xED then utf8Go i 2 1 0x80 0x9F rest
+      else if b == 0xF0 then utf8Go i 3 1 0x90 0xBF rest
+      else if 0xF1 ≤ b && b ≤ 0xF3 then utf8Go i 3 1 0x80 0xBF rest
+      else if b == 0xF4 then utf8Go i 3 1 0x80 0x8F rest
+      else some ⟨i, some 1⟩
+    else if lo ≤ b && b ≤ hi then
+      if need = 1 then utf8Go (i + seen + 1) 0 0 0 0 rest
+      else utf8Go i (need - 1) (seen + 1) 0x80 0xBF rest
+    else some ⟨i, some seen⟩
 
-def utf8Check (b : Bytes) : Option Utf8Error := utf8Go 0 b
+def utf8Check (b : Bytes) : Option Utf8Error := utf8Go 0 0 0 0 0 b
 
 /-! ## Error values stored in `LAST_ERROR` -/
 
@@ -238,6 +213,14 @@ inductive Res (α : Type)
   | ok (a : α)
   | notPermitted (why : String)   -- the caller broke a precondition of lol_html.h
   | fault (f : Fault)
+
+def Res.fault? {α : Type} : Res α → Option Fault
+  | .fault f => some f
+  | _ => none
+
+def Res.isNotPermitted {α : Type} : Res α → Bool
+  | .notPermitted _ => true
+  | _ => false
 
 instance : Monad Res where
   pure := .ok
